@@ -27,11 +27,12 @@ class SendUnit(ApiUnit):
                  "puresnmp.api.raw:Client.credentials", "puresnmp.api.raw:Client.context")
     label = "proved"
 
-    def __init__(self, error_response):
-        self.error_response = error_response
+    def __init__(self, error_response, response_class="GetResponse"):
+        self.error_response, self.response_class = error_response, response_class
         if error_response:
             self.props = ("C08", "C14", "C18")
-        self.name = "Client._send[%s]" % ("agent-error-status" if error_response else "no-error")
+        self.name = "Client._send[%s%s]" % ("agent-error-status" if error_response else "no-error",
+                                             "" if response_class == "GetResponse" else ", the decoded PDU is a %s" % response_class)
 
     def run(self, interp):
         ctx, rt = interp.ctx, self.rt
@@ -45,7 +46,7 @@ class SendUnit(ApiUnit):
         resp_rid = ctx.fresh_int("response_request_id")
         content = Obj(get_cls(rt, interp, "puresnmp.pdu:PDUContent"),
                       {"request_id": resp_rid, "varbinds": [], "error_status": 0, "error_index": 0})
-        resp_cls = get_cls(rt, interp, "puresnmp.pdu:GetResponse")
+        resp_cls = get_cls(rt, interp, "puresnmp.pdu:" + self.response_class)     # whatever class the model decodes to
         response = Obj(resp_cls, {"pyvalue": content, "_raw_bytes": b"", "_lazy_error": self.error_response})
         err_cls = get_cls(rt, interp, "puresnmp.exc:ErrorResponse")
         value_reads = []
@@ -166,5 +167,55 @@ class CommunityIncoming(VU):
         return "raises" if exc is not None else "returns"
 
 
+class RequestIdFromClock(VU):
+    """puresnmp.util.get_request_id: the id is the wall clock in whole seconds (what C07's quantifier speaks about: "a clock that
+    advances between any two reads"), hence an Integer32 / a legal SNMPv3 msgID for every clock value below 2^31 seconds."""
+    props = ("C05", "C07", "C10", "C12")
+    label = "proved"
+    target = "puresnmp.util:get_request_id"
+    functions = (target,)
+    name = "get_request_id[any clock value >= 0]"
+
+    def setup(self, rt, interp):
+        self.rt = rt
+        from pyvc import stdlib
+        stdlib.install_numeric_models(rt, interp)
+
+    def run(self, interp):
+        import z3
+        from pyvc.stdlib import SReal
+        from pyvc.core import lift_bool, zint, SInt
+        ctx, rt = interp.ctx, self.rt
+        t = ctx.fresh(z3.RealSort(), "wall_clock_seconds")
+        ctx.assume(lift_bool(t >= 0))
+        reads = []
+
+        def clock(i, fn, a, k):
+            if fn.name != "time.time":
+                raise Undecided("call of external %s" % fn.name)
+            reads.append(1)
+            return SReal(t)
+        rt.call_hooks["Opaque"] = clock
+        exc = res = None
+        try:
+            res = interp.call(get_func(rt, interp, self.target), [], {})
+        except PyExc as pe:
+            exc = pe.obj
+        for p in self.props:
+            ok = exc is None and isinstance(res, (int, SInt)) and not isinstance(res, bool)
+            ctx.check(oname(p, self.target, "ensures", "returns-an-integer"), ok)
+            if ok:
+                r = zint(res)
+                ctx.check(oname(p, self.target, "ensures", "the-id-is-the-wall-clock-in-whole-seconds(one-read)"),
+                          And(len(reads) == 1, lift_bool(z3.And(z3.ToReal(r) <= t, t < z3.ToReal(r) + 1))))
+                ctx.check(oname(p, self.target, "ensures", "an-Integer32-and-legal-msgID-while-the-clock-is-below-2^31"),
+                          lift_bool(z3.Implies(t < 2 ** 31, z3.And(r >= 0, r <= 2 ** 31 - 1))))
+        return "returns"
+
+
+def units_request_id(tier):
+    return [RequestIdFromClock()]
+
+
 def units(tier):
-    return [SendUnit(False), SendUnit(True), CommunityIncoming(0), CommunityIncoming(1)]
+    return [SendUnit(False), SendUnit(True), SendUnit(False, "Report"), SendUnit(False, "GetRequest"), CommunityIncoming(0), CommunityIncoming(1)]
